@@ -301,6 +301,16 @@ LINE_EDITORS = {"Replace", "Append"}   # replace(#h, v) and append(name, v): the
 _MUTATORS = {"append", "insert", "pop", "remove", "extend", "clear", "sort", "reverse", "__setitem__", "__delitem__"}
 
 
+def _rebound_to_copy(fn, name):
+    """every assignment to `name` in fn binds a freshly built list (list(...), copy(...), x[:], a list display or comprehension), and there
+    is at least one"""
+    vals = [n.value for n in walk_no_nested(fn) if isinstance(n, ast.Assign) and any(isinstance(t, ast.Name) and t.id == name for t in n.targets)]
+    def fresh(v):
+        return (isinstance(v, (ast.List, ast.ListComp)) or (isinstance(v, ast.Call) and call_name(v) in ("list", "copy", "deepcopy"))
+                or (isinstance(v, ast.Subscript) and isinstance(v.slice, ast.Slice) and v.slice.lower is None and v.slice.upper is None))
+    return bool(vals) and all(fresh(v) for v in vals)
+
+
 def line_writers(idx, rep, rid):
     """in-place writes to a line (`<x>.line[i] = …`, `line[:] = …`, `<x>.line.append(…)`, `del line[i]`) outside the documented line editors"""
     n = 0
@@ -318,7 +328,10 @@ def line_writers(idx, rep, rid):
             if base is None:
                 continue
             t = K.resolved_text(fi, base) if isinstance(base, ast.Name) else unparse(base)
-            # (a local that is bound to a new list — `line = []` — resolves to that expression, not to a line that came in)
+            # (a local that is bound to a new list — `line = []` — resolves to that expression, not to a line that came in; so does a
+            # parameter that is re-bound to a copy of itself before it is changed: `line = list(line)`, `line = line[:]`)
+            if isinstance(base, ast.Name) and _rebound_to_copy(fi.node, base.id):
+                continue
             if t == "line" or t.endswith(".line"):
                 hits.append((fi, node))
     for fi, node in hits:
